@@ -21,9 +21,10 @@ VARIABLES now, up,
           pc, key, got,\* per goroutine
           fetched,     \* per goroutine: the response it fetched
           upq,         \* per goroutine: did the current call query upstream?
+          missed,      \* per goroutine: there was no entry for the key when the call looked it up
           last         \* per goroutine: result of the call that just returned [kind, gen, upq, at]
 
-vars == <<now, up, ttls, gen, cache, wlock, pc, key, got, fetched, upq, last>>
+vars == <<now, up, ttls, gen, cache, wlock, pc, key, got, fetched, upq, missed, last>>
 Gs == 1..G
 
 MinOf(s) == IF s = <<>> THEN 300 ELSE CHOOSE m \in {s[i] : i \in DOMAIN s} : \A i \in DOMAIN s : m <= s[i]
@@ -35,27 +36,28 @@ Init ==
   /\ gen = [k \in Keys |-> 0]
   /\ cache = [k \in Keys |-> None] /\ wlock = [k \in Keys |-> 0]
   /\ pc = [g \in Gs |-> "idle"] /\ key = [g \in Gs |-> CHOOSE k \in Keys : TRUE] /\ got = [g \in Gs |-> None]
-  /\ fetched = [g \in Gs |-> None] /\ upq = [g \in Gs |-> FALSE] /\ last = [g \in Gs |-> None]
+  /\ fetched = [g \in Gs |-> None] /\ upq = [g \in Gs |-> FALSE] /\ missed = [g \in Gs |-> FALSE] /\ last = [g \in Gs |-> None]
 
 \* ---- a lookup (resolve.go:451-488)
 Call(g, k) == /\ pc[g] = "idle" /\ pc' = [pc EXCEPT ![g] = "fast"] /\ key' = [key EXCEPT ![g] = k]
               /\ upq' = [upq EXCEPT ![g] = FALSE] /\ got' = [got EXCEPT ![g] = None]
+              /\ missed' = [missed EXCEPT ![g] = (cache[k] = None)]
               /\ UNCHANGED <<now, up, ttls, gen, cache, wlock, fetched, last>>
 \* fast path: RLock (blocks while a writer holds the entry), read, RUnlock
 FastRead(g) == /\ pc[g] = "fast" /\ wlock[key[g]] = 0
                /\ IF Valid(cache[key[g]], now)
                   THEN pc' = [pc EXCEPT ![g] = "ret"] /\ got' = [got EXCEPT ![g] = [kind |-> "ok", gen |-> cache[key[g]].gen, at |-> now, f |-> cache[key[g]].f]]
                   ELSE pc' = [pc EXCEPT ![g] = "wantlock"] /\ UNCHANGED got
-               /\ UNCHANGED <<now, up, ttls, gen, cache, wlock, key, fetched, upq, last>>
+               /\ UNCHANGED <<now, up, ttls, gen, cache, wlock, key, fetched, upq, missed, last>>
 Lock(g) == /\ pc[g] = "wantlock" /\ wlock[key[g]] = 0
            /\ wlock' = [wlock EXCEPT ![key[g]] = g] /\ pc' = [pc EXCEPT ![g] = "locked"]
-           /\ UNCHANGED <<now, up, ttls, gen, cache, key, got, fetched, upq, last>>
+           /\ UNCHANGED <<now, up, ttls, gen, cache, key, got, fetched, upq, missed, last>>
 Recheck(g) == /\ pc[g] = "locked"
               /\ IF Valid(cache[key[g]], now)
                  THEN /\ pc' = [pc EXCEPT ![g] = "ret"] /\ got' = [got EXCEPT ![g] = [kind |-> "ok", gen |-> cache[key[g]].gen, at |-> now, f |-> cache[key[g]].f]]
                       /\ wlock' = [wlock EXCEPT ![key[g]] = 0]
                  ELSE pc' = [pc EXCEPT ![g] = "fetch"] /\ UNCHANGED <<got, wlock>>
-              /\ UNCHANGED <<now, up, ttls, gen, cache, key, fetched, upq, last>>
+              /\ UNCHANGED <<now, up, ttls, gen, cache, key, fetched, upq, missed, last>>
 \* upstream query: a failure removes the entry and is not cached
 Fetch(g) == /\ pc[g] = "fetch"
             /\ upq' = [upq EXCEPT ![g] = TRUE]
@@ -63,26 +65,40 @@ Fetch(g) == /\ pc[g] = "fetch"
                           /\ pc' = [pc EXCEPT ![g] = "store"] /\ UNCHANGED <<cache, wlock, got>>
                ELSE /\ cache' = [cache EXCEPT ![key[g]] = None] /\ wlock' = [wlock EXCEPT ![key[g]] = 0]
                     /\ got' = [got EXCEPT ![g] = [kind |-> "err", gen |-> -1, at |-> now, f |-> now]] /\ pc' = [pc EXCEPT ![g] = "ret"] /\ UNCHANGED fetched
-            /\ UNCHANGED <<now, up, ttls, gen, key, last>>
+            /\ UNCHANGED <<now, up, ttls, gen, key, missed, last>>
 \* lifetime = the smallest TTL among ALL records of the response (0 = not cacheable); 300 s only for an empty response
 Store(g) == /\ pc[g] = "store"
             /\ cache' = [cache EXCEPT ![key[g]] = [exp |-> now + MinOf(fetched[g].ttls), gen |-> fetched[g].gen, f |-> fetched[g].f,
                                                    min |-> MinOf(fetched[g].ttls)]]
             /\ wlock' = [wlock EXCEPT ![key[g]] = 0]
             /\ got' = [got EXCEPT ![g] = [kind |-> "ok", gen |-> fetched[g].gen, at |-> now, f |-> fetched[g].f]] /\ pc' = [pc EXCEPT ![g] = "ret"]
-            /\ UNCHANGED <<now, up, ttls, gen, key, fetched, upq, last>>
+            /\ UNCHANGED <<now, up, ttls, gen, key, fetched, upq, missed, last>>
+\* cache.Get / cache.Add are two steps (resolve.go:458-462): calls that find no entry for the key each create their own
+\* entry object, so they do not exclude each other: such a call may go upstream on its own, and its entry may or may not
+\* end up as the one in the cache. (Harmless: no stale data; only a duplicate query.)
+PrivateFetch(g) ==
+  /\ pc[g] \in {"fast", "wantlock"} /\ missed[g]
+  /\ upq' = [upq EXCEPT ![g] = TRUE]
+  /\ IF up THEN LET e == [exp |-> now + MinOf(ttls[key[g]][gen[key[g]]]), gen |-> gen[key[g]], f |-> now, min |-> MinOf(ttls[key[g]][gen[key[g]]])] IN
+                 /\ got' = [got EXCEPT ![g] = [kind |-> "ok", gen |-> gen[key[g]], at |-> now, f |-> now]]
+                 /\ cache' \in {cache, [cache EXCEPT ![key[g]] = e]}
+           ELSE /\ got' = [got EXCEPT ![g] = [kind |-> "err", gen |-> -1, at |-> now, f |-> now]]
+                /\ cache' \in {cache, [cache EXCEPT ![key[g]] = None]}
+  /\ pc' = [pc EXCEPT ![g] = "ret"]
+  /\ UNCHANGED <<now, up, ttls, gen, wlock, key, fetched, missed, last>>
+
 Return(g) == /\ pc[g] = "ret" /\ pc' = [pc EXCEPT ![g] = "idle"]
              /\ last' = [last EXCEPT ![g] = [kind |-> got[g].kind, gen |-> got[g].gen, upq |-> upq[g], at |-> now, key |-> key[g]]]
-             /\ UNCHANGED <<now, up, ttls, gen, cache, wlock, key, got, fetched, upq>>
+             /\ UNCHANGED <<now, up, ttls, gen, cache, wlock, key, got, fetched, upq, missed>>
 
 \* ---- environment
 Advance == /\ now < MaxNow /\ \A g \in Gs : pc[g] # "store" /\ now' = now + 1
-           /\ UNCHANGED <<up, ttls, gen, cache, wlock, pc, key, got, fetched, upq, last>>
+           /\ UNCHANGED <<up, ttls, gen, cache, wlock, pc, key, got, fetched, upq, missed, last>>
 Change(k) == /\ gen[k] < MaxGen /\ gen' = [gen EXCEPT ![k] = gen[k] + 1]
-             /\ UNCHANGED <<now, up, ttls, cache, wlock, pc, key, got, fetched, upq, last>>
-Toggle == /\ up' = ~up /\ UNCHANGED <<now, ttls, gen, cache, wlock, pc, key, got, fetched, upq, last>>
+             /\ UNCHANGED <<now, up, ttls, cache, wlock, pc, key, got, fetched, upq, missed, last>>
+Toggle == /\ up' = ~up /\ UNCHANGED <<now, ttls, gen, cache, wlock, pc, key, got, fetched, upq, missed, last>>
 
-GoStep(g) == (\E k \in Keys : Call(g, k)) \/ FastRead(g) \/ Lock(g) \/ Recheck(g) \/ Fetch(g) \/ Store(g) \/ Return(g)
+GoStep(g) == (\E k \in Keys : Call(g, k)) \/ FastRead(g) \/ Lock(g) \/ Recheck(g) \/ Fetch(g) \/ Store(g) \/ PrivateFetch(g) \/ Return(g)
 Next == (\E g \in Gs : GoStep(g)) \/ Advance \/ (\E k \in Keys : Change(k)) \/ Toggle
 Spec == Init /\ [][Next]_vars
 
@@ -97,9 +113,9 @@ NoCachedFailure == \A g \in Gs : (pc[g] = "ret" /\ got[g].kind = "err") => upq[g
 \* a call that starts when the entry is expired (or absent) asks upstream before returning, unless another call refreshed it meanwhile
 MutualExclusion == \A a, b \in Gs : (a # b /\ pc[a] \in {"locked", "fetch", "store"} /\ pc[b] \in {"locked", "fetch", "store"}) => key[a] # key[b]
 LockHeld == \A g \in Gs : pc[g] \in {"locked", "fetch", "store"} <=> wlock[key[g]] = g
-TS_full == { <<>>, <<0>>, <<1>>, <<2>>, <<0, 2>>, <<2, 1>>, <<3, 0, 2>> }
+TS_full == { <<0>>, <<1>>, <<2>>, <<0, 2>>, <<2, 1>>, <<3, 0, 2>> }     \* (a response without records has no TTL: caching it or not is unspecified)
 TS_two == { <<2>>, <<0>> }
-TS_q == { <<>>, <<0, 2>>, <<2, 1>> }
-ViewNoLast == <<now, up, ttls, gen, cache, wlock, pc, key, got, fetched, upq>>
+TS_q == { <<1>>, <<0, 2>>, <<2, 1>> }
+ViewNoLast == <<now, up, ttls, gen, cache, wlock, pc, key, got, fetched, upq, missed>>
 TypeOK == now \in 0..MaxNow
 =============================================================================
